@@ -62,13 +62,15 @@ def group(id, args, required=False, multiple=False, requires=(), conflicts=()):
             "requires": list(requires), "conflicts": list(conflicts)}
 
 
-def cmd(name, args=(), groups=(), subs=(), aliases=(), short_flag=None, long_flag=None, version=False, **settings):
+def cmd(name, args=(), groups=(), subs=(), aliases=(), short_flag=None, long_flag=None, version=False,
+        long_flag_aliases=(), short_flag_aliases=(), **settings):
     s = {k: False for k in SETTINGS}
     for k, v in settings.items():
         assert k in s, k
         s[k] = v
     return {"name": b(name), "aliases": [b(x) for x in aliases], "short_flag": b(short_flag) if short_flag else [],
-            "long_flag": b(long_flag) if long_flag else [], "version": version, "s": s,
+            "long_flag": b(long_flag) if long_flag else [], "long_flag_aliases": [b(x) for x in long_flag_aliases],
+            "short_flag_aliases": [b(x) for x in short_flag_aliases], "version": version, "s": s,
             "args": list(args), "groups": list(groups), "subs": list(subs)}
 
 
@@ -143,6 +145,12 @@ def alphabet(c, extra=(), values=("v", "w"), with_noise=True, max_tokens=26):
                 add([45] + s["short_flag"] + shorts[0])
         if s["long_flag"]:
             add(b("--") + s["long_flag"])
+        for la in s["long_flag_aliases"]:
+            add(b("--") + la)
+            if c["s"]["infer_subcommands"] and len(la) > 2:
+                add(b("--") + la[:3])
+        for sa in s["short_flag_aliases"]:
+            add([45] + sa)
         if c["s"]["infer_subcommands"] and len(s["name"]) > 1:
             add(s["name"][:-1])
             add(s["name"][:1])
@@ -434,6 +442,12 @@ def f_tree():
                                            subs=[cmd("sync", long_flag="sync"), cmd("status", long_flag="status")],
                                            infer_subcommands=True, infer_long_args=True), extra=["--sy", "--s", "--st", "--fo"])
     add("help-subcommand", cmd("p", [arg("f", "f", action="SetTrue")], subs=[mid]), extra=["help", "mid", "leaf", "nope"])
+    fa = cmd("sync", [arg("u", "u", action="SetTrue")], short_flag="S", long_flag="sync", long_flag_aliases=["update", "upgrade"],
+             short_flag_aliases=["U"])
+    fb = cmd("query", [arg("i", "i", action="SetTrue")], long_flag="query", long_flag_aliases=["ask"])
+    add("flag-subcommand-aliases", cmd("pac", [arg("v", "v", action="SetTrue")], subs=[fa, fb]), extra=["--update", "--ask", "-U", "-Uu", "--upd"])
+    add("flag-subcommand-aliases-infer", cmd("pac", [arg("v", "v", action="SetTrue")], subs=[fa, fb], infer_subcommands=True),
+        extra=["--update", "--upd", "--up", "--u", "--as", "--sy", "-U", "--q"])
     add("propagate-version", cmd("p", [], subs=[mid], version=True, propagate_version=True), extra=["--version", "-V"])
     add("ignore-errors-tree", cmd("p", [arg("f", "f", action="SetTrue"), arg("o", "o", defaults=["d"])], subs=[mid], ignore_errors=True))
     add("sub-with-positional-parent", cmd("p", [arg("p1"), arg("f", "f", action="SetTrue")], subs=[leaf]))
@@ -489,3 +503,115 @@ if __name__ == "__main__":
     for name, fn in FAMILIES.items():
         print(name, len(fn()))
     print("rel2", len(f_rel(2)), "rel1", len(f_rel(1)))
+
+
+# ---------------------------------------------------------------- F-spell (C08)
+def elements_for(c):
+    """intended-invocation elements with all their documented equivalent spellings (first = canonical)"""
+    els = []
+    infer = c["s"]["infer_long_args"]
+    nonpos = [a for a in c["args"] if a["short"] or a["long"]]
+    longs = [a["long"] for a in nonpos if a["long"]] + [al for a in nonpos for al in a["aliases"]]
+
+    def uniq_prefixes(name):
+        out = []
+        for k in range(1, len(name)):
+            p = name[:k]
+            if sum(1 for l in longs if l[:k] == p) == 1 and p not in longs:
+                out.append(p)
+        return out[:2] + out[-1:] if len(out) > 3 else out
+    flags, opts = [], []
+    for a in nonpos:
+        takes = a["action"] in ("", "Set", "Append") and not (a["nset"] and a["nmax"] == 0)
+        if takes and (a["req_eq"] or (a["nset"] and (a["nmin"], a["nmax"]) != (1, 1))):
+            continue
+        names = ([a["long"]] if a["long"] else []) + a["aliases"]
+        if infer:
+            names = names + [p for n in names for p in uniq_prefixes(n)]
+        if not takes:
+            sp = [[b("--") + n] for n in names] + ([[[45] + a["short"]]] if a["short"] else [])
+            els.append({"kind": "flag", "id": a["id"], "last": False, "sp": sp})
+            if a["short"]:
+                flags.append(a)
+        else:
+            v = b("v")
+            if a["vp"]["k"] == "int":
+                v = b(str(a["vp"]["lo"]))
+            if a["vp"]["k"] == "possible":
+                v = a["vp"]["pvs"][0]
+            sp = []
+            for n in names:
+                sp += [[b("--") + n + [61] + v], [b("--") + n, v]]
+            if a["short"]:
+                sp += [[[45] + a["short"] + v], [[45] + a["short"], v], [[45] + a["short"] + [61] + v]]
+            els.append({"kind": "opt", "id": a["id"], "last": False, "sp": sp})
+            if a["short"]:
+                opts.append((a, v))
+    # clusters: two flags; flag(s) + option
+    for i, x in enumerate(flags):
+        for y in flags[i + 1:]:
+            els.append({"kind": "cluster", "id": x["id"] + "+" + y["id"], "last": False,
+                        "sp": [[[45] + x["short"], [45] + y["short"]], [[45] + x["short"] + y["short"]]]})
+    for x in flags[:2]:
+        for (o, v) in opts[:2]:
+            els.append({"kind": "cluster", "id": x["id"] + "+" + o["id"], "last": False,
+                        "sp": [[[45] + x["short"], [45] + o["short"], v], [[45] + x["short"] + o["short"] + v],
+                               [[45] + x["short"] + o["short"], v], [[45] + x["short"] + o["short"] + [61] + v]]})
+    poss = [a for a in c["args"] if not (a["short"] or a["long"])]
+    # an explicit `--` is documented to change routing under allow_missing_positional / `last`; not an equivalence there
+    if poss and not any(a["last"] for a in poss) and not c["s"]["allow_missing_positional"]:
+        for vals in ([b("p")], [b("p"), b("q")], [b("p"), b("q"), b("r")]):
+            els.append({"kind": "tail", "id": "tail%d" % len(vals), "last": True, "sp": [vals, [b("--")] + vals]})
+    for s in c["subs"]:
+        names = [s["name"]] + s["aliases"]
+        if c["s"]["infer_subcommands"]:
+            all_names = [n for t in c["subs"] for n in [t["name"]] + t["aliases"]] + [b("help")]
+            for k in range(1, len(s["name"])):
+                p = s["name"][:k]
+                if sum(1 for n in all_names if n[:k] == p) == 1:
+                    names.append(p)
+                    break
+        els.append({"kind": "sub", "id": "sub", "last": True, "sp": [[n] for n in names]})
+    # ambiguous prefixes (>= 2 candidate arguments, no exact match): must never be resolved
+    if infer:
+        seen = []
+        for n in longs:
+            for k in range(1, len(n)):
+                pfx = n[:k]
+                owners = {a["id"] for a in nonpos if (a["long"][:k] == pfx and a["long"]) or any(al[:k] == pfx for al in a["aliases"])}
+                if len(owners) >= 2 and pfx not in longs and pfx not in seen:
+                    seen.append(pfx)
+                    els.append({"kind": "ambiguous", "id": "amb", "last": True, "sp": [[b("--") + pfx]]})
+    for e in els:
+        e["amb"] = e["kind"] == "ambiguous"
+    return [e for e in els if len(e["sp"]) >= 1]
+
+
+def f_spell():
+    D = []
+
+    def add(label, c):
+        d = with_alpha(c, "spell", label)
+        d["elements"] = elements_for(c)
+        D.append(d)
+    add("flags+opts", cmd("p", [arg("a", "a", "aa", action="SetTrue"), arg("b", "b", "bb", action="Count"),
+                                arg("o", "o", "opt", aliases=["alt"]), arg("n", "n", "num", action="Append"), arg("p1", num=(0, None))]))
+    add("infer", cmd("p", [arg("v1", "v", "verbose", action="SetTrue"), arg("v2", long="version2", action="SetTrue"),
+                           arg("hid", long="verify-only", action="SetTrue", hide=True),
+                           arg("o", "o", "output", aliases=["out-file"]), arg("tr", long="trace-level", hide=True)], infer_long_args=True))
+    add("low-index-multi", cmd("p", [arg("files", num=(1, None), required=True), arg("target", required=True), arg("f", "f", "force", action="SetTrue")]))
+    add("two-positionals", cmd("p", [arg("p1"), arg("p2"), arg("o", "o", "opt")]))
+    add("allow-missing", cmd("p", [arg("p1"), arg("p2", required=True), arg("f", "f", action="SetTrue")], allow_missing_positional=True))
+    add("int+possible", cmd("p", [arg("n", "n", "num", vp=vp_int(1, 5)), arg("m", "m", "mode", vp=vp_possible("fast", "slow"), aliases=["md"]),
+                                  arg("x", "x", action="SetTrue")]))
+    add("subs-alias", cmd("p", [arg("f", "f", "ff", action="SetTrue"), arg("g", "g", "gg", glob=True)],
+                          subs=[cmd("test", [arg("t", "t", action="SetTrue")], aliases=["tst", "check"]), cmd("other")]))
+    add("subs-infer", cmd("p", [arg("f", "f", "ff", action="SetTrue")],
+                          subs=[cmd("build", aliases=["bld"]), cmd("bench"), cmd("run")], infer_subcommands=True))
+    add("override-self", cmd("p", [arg("o", "o", "opt"), arg("a", "a", "aa", action="SetTrue"), arg("c", "c", action="Count")], args_override_self=True))
+    add("delim+append", cmd("p", [arg("o", "o", "opt", action="Append", delim=","), arg("a", "a", action="SetTrue"), arg("p1", num=(0, None))]))
+    add("hyphen-option", cmd("p", [arg("a", "a", "aa", action="SetTrue"), arg("o", "o", "opt", hyphen=True), arg("p1", num=(0, None))]))
+    return D
+
+
+FAMILIES["spell"] = f_spell
